@@ -285,14 +285,19 @@ def unit_quad_frontend():
                     c.ok("rejects_empty_output")
                 return
             if which == "tensor":
-                r = qd.quad(lambda x, q: f1, xl, xu, params=(p,), n=9)
+                r = qd.quad(lambda x, q: f1, xl, xu, params=(p,), bck_options={"n": 33}, n=9)
                 a = cap["a"]
                 c.check("tensor.apply_gets_limits_options_dtype", a[1] is xl and a[2] is xu and a[3] == {"n": 9, "method": "leggauss"}
-                        and a[5] == 1 and a[6] is f1.dtype and a[8] is p)
+                        and a[4] == {"n": 33} and a[5] == 1 and a[6] is f1.dtype and a[8] is p,
+                        detail="forward options %r, backward options %r" % (a[3], a[4]))
                 c.check("tensor.result_returned", r.name == "flat")
             else:
-                r = qd.quad(lambda x, q: (f1, f2), xl, xu, params=(p,))
+                bck = {"n": 33}
+                r = qd.quad(lambda x, q: (f1, f2), xl, xu, params=(p,), bck_options=bck, n=9)
                 a = cap["a"]
+                c.check("tuple.apply_gets_limits_options_dtype", a[1] is xl and a[2] is xu and a[3] == {"n": 9, "method": "leggauss"}
+                        and a[4] == {"n": 33} and a[5] == 1 and a[6] is f1.dtype and a[8] is p,
+                        detail="forward options %r, backward options %r" % (a[3], a[4]))
                 with st.no_grad():
                     flat = a[0](st.scalar("xq"), p)
                 pieces, d = flat._cat_of
